@@ -106,6 +106,8 @@ impl Adapter for AdaptiveAd {
         p.w_drop = 2;
         p.ops = vec!["probe"];
         p.max_adv = 5;
+        // now and then the wrapped service's call itself panics: the call must not stay counted as in flight
+        p.callpanic_pct = 5;
         p
     }
     fn finale(&self, _cfg: &Value) -> Vec<Value> {
